@@ -92,6 +92,32 @@ type c10Result struct {
 	short   bool // fewer bytes available than the size function asked for (ReadFull fails)
 	panic   any
 	stack   string
+	stuck   bool // the extraction did not return
+}
+
+// The extraction is a pure function of at most a few KB of input: when it has not returned
+// after c10Patience (tried twice) it does not terminate.  The goroutine cannot be stopped; after
+// a few of them the run stops offering input (every one keeps a CPU busy).
+const c10Patience = 5 * time.Second
+
+var c10Stuck int64
+
+func c10FabioGuarded(b []byte) c10Result {
+	for try := 0; ; try++ {
+		ch := make(chan c10Result, 1)
+		go func() { ch <- c10Fabio(b) }()
+		t := time.NewTimer(c10Patience)
+		select {
+		case r := <-ch:
+			t.Stop()
+			return r
+		case <-t.C:
+			if try == 1 {
+				atomic.AddInt64(&c10Stuck, 1)
+				return c10Result{stuck: true}
+			}
+		}
+	}
 }
 
 // c10Fabio does what SNIProxy.ServeTCP does with the first bytes of a connection.
@@ -147,7 +173,7 @@ func c10Referee(b []byte) (name string, accepted bool) {
 // ---------------------------------------------------------------- judging one input
 
 type c10Stats struct {
-	evals, refAccepts, fabioAccepts, lenient, fragmented, tlsLenient, strictAgree, strictTotal int64
+	evals, refAccepts, fabioAccepts, lenient, fragmented, tlsLenient, strictAgree, strictTotal, notOffered int64
 }
 
 // c10Judge applies the rules to one byte string.  mc = the specification's expectation (may
@@ -163,8 +189,17 @@ func c10Judge(part string, mc *c10Case, b []byte, prefix bool, st *c10Stats, use
 	modelBug := func(format string, a ...any) {
 		verifx.Emit(map[string]any{"kind": "modelbug", "case": mc, "msg": fmt.Sprintf(format, a...)})
 	}
+	if atomic.LoadInt64(&c10Stuck) >= 3 {
+		atomic.AddInt64(&st.notOffered, 1)
+		return
+	}
 	atomic.AddInt64(&st.evals, 1)
-	r := c10Fabio(b)
+	r := c10FabioGuarded(b)
+	// R0: it returns ("it is rejected instead")
+	if r.stuck {
+		fail("no-termination", "extraction did not return within %v (tried twice) on %d bytes", c10Patience, len(b))
+		return
+	}
 	// R1: never panics
 	if r.panic != nil {
 		fail("panic", "extraction panicked on %d bytes: %v\n%s", len(b), r.panic, r.stack)
@@ -437,5 +472,5 @@ func TestVerifC10(t *testing.T) {
 	verifx.Summary(map[string]any{"model_cases": nModel, "paths": len(paths), "hellos": hellos, "max_hello": maxLen,
 		"evaluations": st.evals, "tls_accepts": st.refAccepts, "fabio_accepts": st.fabioAccepts,
 		"fragmented_not_judged": st.fragmented, "tls_lenient_not_judged": st.tlsLenient, "strict_total": st.strictTotal, "strict_agree": st.strictAgree,
-		"lenient": st.lenient, "samples": samples})
+		"lenient": st.lenient, "samples": samples, "not_offered_after_hangs": st.notOffered})
 }
